@@ -71,39 +71,9 @@ Definition s_model_kinds (c : cfg) (x : scase) : list (N * N) :=
   | None => [(3, sid x); (1, sid x)]
   end.
 
-(* the positions the scanner can report: after 0, 1, 2, ... calls of next() *)
-Fixpoint positions_l (l : str) (ln cl : N) : list (N * N) :=
-  (ln, cl) ::
-  match l with
-  | [] => []
-  | c :: r =>
-      if c =? 13 then
-        match r with
-        | d :: r' => if d =? 10 then positions_l r' (ln + 1) 0 else positions_l r (ln + 1) 0
-        | [] => positions_l r (ln + 1) 0
-        end
-      else if c =? 10 then positions_l r (ln + 1) 0
-      else positions_l r ln (cl + 1)
-  end.
-Definition pos_inside (src : str) (ln cl : N) : bool :=
-  existsb (fun p => (fst p =? ln) && (snd p =? cl)) (positions_l src 1 0).
-
-(* the specification on the implementation's own answers: every reported position is a position of
-   the input, the stream ends with the only EOF token, and there are at most as many other tokens
-   as code points *)
-Fixpoint eof_last (ts : list token) : bool :=
-  match ts with
-  | [] => false
-  | [t] => (t_kind t =? k_eof)%Z
-  | t :: ts' => negb (t_kind t =? k_eof)%Z && eof_last ts'
-  end.
-Definition s_spec_ok (x : scase) : bool :=
-  let src := s_src x in
-  let ps := positions_l src 1 0 in
-  let obs := s_obs x in
-  forallb (fun t => existsb (fun p => if fst p =? t_line t then snd p =? t_char t else false) ps) obs
-  && eof_last obs
-  && (length obs <=? S (length src))%nat.
+(* the specification on the implementation's own answers (Model.Lex.stream_ok; the model's own
+   streams satisfy it by theorem tokens_stream_ok) *)
+Definition s_spec_ok (x : scase) : bool := stream_ok (s_src x) (s_obs x).
 
 (* ---- escaping cases -------------------------------------------------------------------------- *)
 Record ecase := mkEC {
